@@ -82,8 +82,7 @@ func checkC16(c *Check) {
 		}
 		ok := false
 		if df != nil && serve != nil {
-			if mc, isMC := df.Call.Value.(*ssa.MakeClosure); isMC {
-				cl := mc.Fn.(*ssa.Function)
+			if cl := spawnedFn(&df.Call); cl != nil && inModule(cl) && len(cl.Blocks) > 0 {
 				// every path of the closure ends in os.Exit: no Return reachable without passing os.Exit
 				found, _ := pathQuery{fn: cl, target: isReturn, stop: func(in ssa.Instruction) bool {
 					ci, isC := in.(ssa.CallInstruction)
@@ -113,9 +112,11 @@ func checkC16(c *Check) {
 		}
 		ok := false
 		if io != nil {
-			// on the error edge a call to the done-closing function is made before returning
+			// whenever the socket operation fails, 'done' has been closed by the time the loop function returns
+			// (decided path by path with the operation's error assumed non-nil, whatever the loop's form)
+			var errV ssa.Value
 			if v, isV := io.(ssa.Value); isV {
-				var errV ssa.Value = v
+				errV = v
 				if refs := v.Referrers(); refs != nil {
 					for _, r := range *refs {
 						if ex, isE := r.(*ssa.Extract); isE && ex.Type().String() == "error" {
@@ -123,27 +124,35 @@ func checkC16(c *Check) {
 						}
 					}
 				}
-				if refs := errV.Referrers(); refs != nil {
-					for _, r := range *refs {
-						if bo, isB := r.(*ssa.BinOp); isB && bo.Op == token.NEQ && isNilConst(bo.Y) {
-							if br := bo.Referrers(); br != nil {
-								for _, u := range *br {
-									if iff, isI := u.(*ssa.If); isI {
-										eb := iff.Block().Succs[0]
-										for _, in := range eb.Instrs {
-											if ci, isC := in.(ssa.CallInstruction); isC {
-												if _, callee := calleeOf(ci); callee != nil && closesDoneOnce(callee) {
-													ok = true
-												}
-											}
-										}
-									}
-								}
-							}
+			}
+			failedRets, bad := 0, 0
+			w := &walker{fn: fn, Inline: -1, MaxVisits: 3}
+			w.Seed = func(w *walker, st *wstate, v ssa.Value) *absVal {
+				if v == errV {
+					return &absVal{k: avPtr, key: "X:err"}
+				}
+				return nil
+			}
+			w.OnInstr = func(w *walker, st *wstate, in ssa.Instruction) {
+				if ci, isC := in.(ssa.CallInstruction); isC {
+					if _, callee := calleeOf(ci); callee != nil && closesDoneOnce(callee) {
+						if _, failed := st.vals[errV]; failed {
+							st.note("done-closed")
 						}
 					}
 				}
 			}
+			w.OnReturn = func(w *walker, st *wstate, ret *ssa.Return, rs []*absVal) {
+				if _, failed := st.vals[errV]; !failed {
+					return
+				}
+				failedRets++
+				if !st.noted("done-closed") {
+					bad++
+				}
+			}
+			w.Run()
+			ok = errV != nil && failedRets > 0 && bad == 0 && !w.Truncated
 		}
 		c.Cond(ok, "2/eof-exits", "container."+strings.ReplaceAll(fk[1], ".", "·")+":error→done", p.Pos(fn.Pos()), "a transport error closes 'done'", "a transport error in this loop does not close 'done': blocked callers never notice the loss of the peer")
 	}
